@@ -1,7 +1,8 @@
 (* Prop_C03.v — the property theorems of C03 and nothing else. *)
 From Coq Require Import List NArith ZArith Bool.
 Import ListNotations.
-From Verif Require Import Base.Val gen.Tables_eapi gen.Tables_C03 C03.Model_C03 C03.Spec_C03 C03.Proofs_C03.
+From Verif Require Import Base.Val gen.Tables_eapi gen.Tables_C03 C03.Model_C03 C03.Spec_C03 C03.Proofs_C03
+  C03.Version_C03 C03.UseDep_C03 C03.Grammar_C03.
 Local Open Scope N_scope.
 
 (* the gate table regenerated from eapi.py is exactly the PMS feature matrix for EAPI 0..9 and "no EAPI" *)
@@ -72,3 +73,34 @@ Theorem reject_is_malformed :
   forall e s, features_of e <> None -> is_ok (parse_atom e false s) = false -> parse_atom e false s = Malformed.
 Proof. exact reject_is_malformed_proof. Qed.
 Print Assumptions reject_is_malformed.
+
+(* the version scanner that models isvalid_version_re = the PMS 3.2 version syntax (without revision):
+   equal on text without newline and without upper-case letters; every PMS version is accepted *)
+Theorem version_agree :
+  (forall v, ~ In c_nl v -> forallb (fun c => negb (s_upper c)) v = true -> m_version v = pms_version v)
+  /\ (forall v, pms_version v = true -> m_version v = true).
+Proof. exact version_agree_proof. Qed.
+Print Assumptions version_agree.
+
+(* the USE-dependency token check of atom.__init__ = the PMS 8.3.4 forms, for tokens without newline *)
+Theorem use_dep_agree :
+  forall d x, ~ In c_nl x -> valid_use_dep d x = pms_use_dep d x.
+Proof. exact use_dep_agree_proof. Qed.
+Print Assumptions use_dep_agree.
+
+(* SOUNDNESS of acceptance (one half of accept_iff_grammar, in full): whatever is accepted is a PMS
+   atom of that EAPI, outside the recorded classes — text without newline, no upper-case letter in
+   the version, no slot / sub-slot name beginning with "+" *)
+Theorem accept_sound_partial :
+  forall e n s a,
+    parse_atom e n s = Ok a -> ~ In c_nl s -> clean_atom a -> pms_atom_b e s = true.
+Proof. exact accept_sound_proof. Qed.
+Print Assumptions accept_sound_partial.
+
+(* isvalid_pkg_name on the "-"-chunks = PMS 3.1.2 package-name rule (tried on every hyphen cut), for
+   names without newline in which no chunk is a code-version carrying an upper-case letter *)
+Theorem pkg_name_agree :
+  forall name, ~ In c_nl name -> upper_version_chunk name = false ->
+               valid_pkg_name (split_on c_dash name) = pms_pkg_name name.
+Proof. exact pkg_name_agree_proof. Qed.
+Print Assumptions pkg_name_agree.
